@@ -504,13 +504,14 @@ func (s *script) event() bool {
 var issChoices = []uint32{0, 1, 0x7fffff00, 0x7ffffff0, 0x7fffffff, 0x80000000, 0xffffff00, 0xfffffff0, 0xffffffff, 12345678}
 
 var wrapOnly bool
+var cubicCC bool
 
 // neutral: the same script (same random choices, same options, buffers and events) with the initial
 // sequence numbers moved far away from 2^31 and 2^32 - the twin a wrap-adjacent placement is
 // compared with (C14: "behaves identically wherever the ISS places the stream").
 func runScript(seed uint64, idx int, mix string, nev int, kinds map[string]int, neutral bool) (string, error) {
 	r := gen.New(seed*1000003 + uint64(idx))
-	cfg := tcpx.Cfg{PeerWnd: 30000, PeerWS: -1}
+	cfg := tcpx.Cfg{PeerWnd: 30000, PeerWS: -1, Cubic: cubicCC}
 	cfg.ISS = issChoices[r.Intn(len(issChoices))]
 	cfg.IRS = issChoices[r.Intn(len(issChoices))]
 	if r.Intn(3) == 0 {
@@ -684,6 +685,7 @@ func main() {
 	mix := flag.String("mix", "c01", "event mix: c01 c02 c04 c05, or a comma-separated list used round robin")
 	nev := flag.Int("events", 30, "events per script")
 	flag.BoolVar(&wrapOnly, "wrap", false, "only wrap-adjacent placements of ISS/IRS and window edges")
+	flag.BoolVar(&cubicCC, "cubic", false, "run every connection with the CUBIC congestion controller (not modelled: monitors only)")
 	twin := flag.Bool("twin", false, "run every script a second time with neutral initial sequence numbers and print the pair")
 	flag.Parse()
 	w := bufio.NewWriter(os.Stdout)
